@@ -346,6 +346,9 @@ func (n *BaseNode) InsertBefore(self, v1, insertee Node) {
 		n.AppendChild(self, insertee)
 		return
 	}
+	if v1 == insertee {
+		return
+	}
 	ensureIsolated(insertee)
 	n.childCount++
 	c := v1
